@@ -374,9 +374,12 @@ def project(snap, fmt, cfg, ignore, n_declared_edges, has_faces_at_build):
     exp = {"V": list(snap["V"]), "E_allowed": [], "E_required": [], "F": [], "C": [], "perkind": False, "soup": None}
     if fmt in ("obj", "mesh"):
         exp["E_allowed"] = E_all
-        if cfg["complete_edges_from_faces"] and has_faces_at_build:
+        if cfg["complete_edges_from_faces"] and has_faces_at_build and (F or C):
+            # edges completed from faces are implied by the faces that are saved with them: only the declared ones have to be in the file
             exp["E_required"] = E_all[:n_declared_edges]
         else:
+            # nothing is saved from which the edges could be completed again (no faces at build time, or faces and cells ignored at save time):
+            # the edges are the content of the mesh and must all be written
             exp["E_required"] = list(E_all)
         if fmt == "obj" and not cfg["export_edges_in_obj"]:
             exp["E_required"] = []
